@@ -294,6 +294,15 @@ func c02rFieldType(b *mb, k int) dsl.Type {
 	return b.mapOf(b.st("string"), b.opt(b.st("int")))
 }
 
+// c02rTypeParameterKind: a field whose type is the record's own type parameter T (the record is then generic: Rec<T>);
+// whether the instantiation makes it nullable (Rec<int?>) is symbolic
+const c02rTypeParameterKind = 100
+
+func c02rIsTypeParameter(t dsl.Type) bool {
+	st, ok := t.(*dsl.SimpleType)
+	return ok && st.Name == "T"
+}
+
 func c02rIsNullable(t dsl.Type) bool {
 	g, ok := t.(*dsl.GeneralizedType)
 	return ok && g.Dimensionality == nil && len(g.Cases) > 1 && g.Cases[0].Type == nil
@@ -310,16 +319,33 @@ func C02CppRecord(maxFields, kinds, nameSets, dirty int) {
 	b := &mb{file: "model.yml"}
 	var fields []*dsl.Field
 	desc := ""
+	generic := verifChoose("generic-record", 2) == 1
+	tpos := -1
+	if generic {
+		tpos = verifChoose("type-parameter-field", n)
+	}
 	for i := 0; i < n; i++ {
+		if i == tpos {
+			desc += "T"
+			fields = append(fields, b.field(names[i], b.st("T")))
+			continue
+		}
 		k := verifChoose(fmt.Sprintf("kind%d", i), kinds)
 		desc += fmt.Sprint(k)
 		fields = append(fields, b.field(names[i], c02rFieldType(b, k)))
 	}
 	verifOut("kinds", desc)
 	inner := b.record(NS, "Inner", nil, b.field("p", b.opt(b.st("int"))), b.field("q", b.gt(nil, nil, b.st("int"), b.st("float"))))
-	rec := b.record(NS, "Rec", nil, fields...)
+	var tparams []string
+	var recRef dsl.Type = b.st("Rec")
+	if generic {
+		// Rec<T>, used as Rec<int?>: the member typed T has a null state in that instantiation
+		tparams = []string{"T"}
+		recRef = b.st("Rec", b.opt(b.st("int")))
+	}
+	rec := b.record(NS, "Rec", tparams, fields...)
 	ns := &dsl.Namespace{Name: NS, IsTopLevel: true, TypeDefinitions: dsl.TypeDefinitions{inner, rec},
-		Protocols: []*dsl.ProtocolDefinition{b.protocol(NS, "P", b.step("s", b.opt(b.st("Rec"))), b.step("t", b.strm(b.st("Rec"))))}}
+		Protocols: []*dsl.ProtocolDefinition{b.protocol(NS, "P", b.step("s", b.opt(recRef)), b.step("t", b.strm(recRef)))}}
 	env, err := dsl.Validate([]*dsl.Namespace{ns})
 	verifAssert("model-validates", err == nil)
 	if err != nil {
@@ -332,8 +358,18 @@ func C02CppRecord(maxFields, kinds, nameSets, dirty int) {
 	if !found || len(members) != n {
 		return
 	}
+	// specNullable: the field is an optional / a union with null - for a field typed by the type parameter T: in the
+	// instantiation Rec<int?> that the protocol uses
+	specNullable := func(i int) bool {
+		return c02rIsNullable(def.Fields[i].Type) || c02rIsTypeParameter(def.Fields[i].Type)
+	}
 	nullable := make([]bool, n)
 	for i, t := range memberTypes {
+		if c02rIsTypeParameter(def.Fields[i].Type) {
+			verifAssert("type-parameter-member-is-declared-with-the-parameter", t == "T")
+			nullable[i] = true
+			continue
+		}
 		nullable[i] = strings.HasPrefix(t, "std::optional<") || strings.HasPrefix(t, "std::variant<std::monostate")
 		// the struct member has a null state exactly when the model field is an optional / a union with null
 		verifAssert("member-has-a-null-state-iff-the-field-is-nullable", nullable[i] == c02rIsNullable(def.Fields[i].Type))
@@ -385,7 +421,7 @@ func C02CppRecord(maxFields, kinds, nameSets, dirty int) {
 	}
 	expected := 0
 	for i := 0; i < n; i++ {
-		skipped := c02rIsNullable(def.Fields[i].Type) && v[i].null
+		skipped := specNullable(i) && v[i].null
 		at := -1
 		for q, k := range w.j.keys {
 			if k == def.Fields[i].Name {
